@@ -233,7 +233,14 @@ func (R *Repository) addNewEmptyEntry(loader crlloader.CRLLoader, identifier str
 	}
 	//if this is persistent store it might be present already
 	if store.IsEmpty() == false {
-		newEntry.Loaded = true
+		//the signature cert is only stored with a crl whose signature was verified
+		_, signatureCertErr := store.GetCRLSignatureCert()
+		if R.crlConfig.SignatureValidationModeParsed == config.SignatureValidationModeVerify && signatureCertErr != nil {
+			//the crl was persisted while signatures were not enforced and was never verified. It is not used before it was loaded and verified again
+			R.logger.Info("persisted crl was stored without verified signature, it will be loaded again", zap.String("crl", loader.GetDescription()))
+		} else {
+			newEntry.Loaded = true
+		}
 	}
 	R.crlRepository[identifier] = &newEntry
 	return &newEntry, nil
